@@ -107,78 +107,171 @@ def r1(ctx):
 
 
 # ---------------------------------------------------------------------------------------------------
+def _kernel_roles(ctx):
+    """position of each role in the signature of _rmsd.superpose_atom_major, read off what its loop body does with the parameters:
+    msd_atom_major(n, n, &MOBILE[i,0,0], &TARGET[frame,0,0], G[frame], G[i], 1, rot) ; rot_atom_major(n, &DISPLACE[i,0,0], rot)"""
+    fn = ctx.py.func(PYX, "superpose_atom_major")
+    sig = params(fn)
+    roles = None
+    for loop in [n for n in ast.walk(fn) if isinstance(n, ast.For)]:
+        lv = dotted(loop.target)
+        msd = [c for s_ in loop.body for c in ast.walk(s_) if isinstance(c, ast.Call) and call_name(c) == "msd_atom_major"]
+        rot = [c for s_ in loop.body for c in ast.walk(s_) if isinstance(c, ast.Call) and call_name(c) == "rot_atom_major"]
+        if len(msd) != 1 or len(rot) != 1:
+            continue
+        A, ia = _first_index(msd[0].args[2])
+        B, ib = _first_index(msd[0].args[3])
+        g1, i1 = _first_index(msd[0].args[4])
+        g2, i2 = _first_index(msd[0].args[5])
+        D, idd = _first_index(rot[0].args[1])
+        if ia != lv or idd != lv or ib == lv or ib not in sig:
+            continue
+        gm, gt = (g1, g2) if i1 == lv else (g2, g1)
+        r_ = {"mobile": A, "target": B, "g_mobile": gm, "g_target": gt, "displace": D, "frame": ib}
+        if any(v not in sig for v in r_.values()):
+            continue
+        r_ = {k: sig.index(v) for k, v in r_.items()}
+        if roles is not None and roles != r_:
+            raise AnalysisError("the parallel and serial loops of superpose_atom_major use their parameters differently: %s / %s" % (roles, r_))
+        roles = r_
+    if roles is None or len(set(roles.values())) != 6:
+        raise AnalysisError("roles of the parameters of _rmsd.superpose_atom_major not recognised")
+    par = sig.index("parallel") if "parallel" in sig else None
+    return roles, sig, par
+
+
 def r2(ctx):
+    """Trajectory.superpose evaluated as a whole (sa/tensym.py) on 2 frames x 4 atoms with views and in-place updates modelled: what reaches
+    the kernel in each role and what self.xyz is afterwards, for all atoms / a selection and for an external reference / the trajectory itself."""
+    from ..tensym import TenSym, Ten, Obj
+    from ..pysym import Unsupported as PUnsupported
     fn = ctx.py.func(TRAJ, "Trajectory.superpose")
     ctx.analysed_functions.add(TRAJ + ":Trajectory.superpose")
-    body = fn.body
-    pos = {}
+    q = "Trajectory.superpose"
+    try:
+        roles, sig, par_pos = _kernel_roles(ctx)
+    except AnalysisError as e:
+        ctx.undecided("C06-R2", fn, TRAJ, q, "roles of the kernel's parameters", str(e))
+        return
+    F_, N_ = 2, 4
+    frame = 1
 
-    def find(pred, what):
-        for i, s in enumerate(body):
-            for n in ast.walk(s):
-                if pred(n):
-                    return i, n
-        return None, None
+    def run(atom_indices, ref_is_self, parallel):
+        # `xyz` is a property of the class: reads go to _xyz, the setter also drops the cached traces (read off the class by C03-R3)
+        def set_xyz(s_, v):
+            s_._xyz = v
+            s_._rmsd_traces = None
 
-    def assign_to(name):
-        return lambda n: isinstance(n, ast.Assign) and dotted(n.targets[0]) == name
+        def mk(name, traces):
+            return Obj(tag=name, _xyz=Ten.sym(name, (F_, N_, 3)), _rmsd_traces=traces, _getters={"xyz": lambda s_: s_._xyz}, _setters={"xyz": set_xyz}, _lenient=True)
+        me = mk("x", Ten.sym("stale_traces", (F_,)))
+        ref = me if ref_is_self else mk("r", None)
+        rec = {}
 
-    def aug(name, op, val):
-        return lambda n: isinstance(n, ast.AugAssign) and src(n.target) == name and isinstance(n.op, op) and src(n.value) == val
+        def kernel(ev, call):
+            args = [ev.ex(a_) for a_ in call.args]
+            kws = {k.arg: ev.ex(k.value) for k in call.keywords}
+            full = {}
+            for i_, v in enumerate(args):
+                full[i_] = v
+            for k, v in kws.items():
+                if k in sig:
+                    full[sig.index(k)] = v
+            rec["n_calls"] = rec.get("n_calls", 0) + 1
+            rec["at_call"] = {role: (Ten(full[p_].shape, list(full[p_].data)) if isinstance(full.get(p_), Ten) else full.get(p_)) for role, p_ in roles.items()}
+            rec["parallel"] = full.get(par_pos) if par_pos is not None else None
+            disp = full.get(roles["displace"])
+            if not (isinstance(disp, Ten) and disp.ndim == 3 and disp.shape[2] == 3):
+                raise PUnsupported("the displaced argument of the kernel is not an (n_frames, n_atoms, 3) array")
+            # the kernel rotates every frame of the displaced array in place: frame f by its own matrix R_f
+            new = []
+            for f in range(disp.shape[0]):
+                R = [[Rat(Poly.var("R%d_%d%d" % (f, i_, j_))) for j_ in range(3)] for i_ in range(3)]
+                for a_ in range(disp.shape[1]):
+                    v = [disp.data[(f * disp.shape[1] + a_) * 3 + k] for k in range(3)]
+                    for i_ in range(3):
+                        new.append(R[i_][0] * v[0] + R[i_][1] * v[1] + R[i_][2] * v[2])
+            disp.data[:] = new
+            return None
+        ts = TenSym(models={"_rmsd.superpose_atom_major": kernel})
+        x0 = Ten.sym("x", (F_, N_, 3))
+        r0 = x0 if ref_is_self else Ten.sym("r", (F_, N_, 3))
+        ts.run_fn(fn, self=me, reference=ref, frame=frame, atom_indices=atom_indices, ref_atom_indices=None, parallel=parallel)
+        return ts, me, rec, x0, r0
 
-    i_align, a = find(assign_to("self_align_xyz"), "")
-    ok = a is not None and "self.xyz[:, atom_indices, :]" in src(a.value)
-    ctx.decide(ok, "C06-R2", a or fn, TRAJ, "Trajectory.superpose", "alignment coordinates = self.xyz[:, atom_indices, :]", "", "alignment coordinates are %s" % (src(a.value) if a else None))
-    i_disp, d = find(assign_to("self_displace_xyz"), "")
-    ok = d is not None and re.sub(r"\s", "", src(d.value)) in ("np.asarray(self.xyz,order='c')", "np.asarray(self.xyz,order='C')")
-    ctx.decide(ok, "C06-R2", d or fn, TRAJ, "Trajectory.superpose", "displaced coordinates = all atoms of self.xyz", "", "displaced coordinates are %s" % (src(d.value) if d else None))
-    i_ref, r = find(assign_to("ref_align_xyz"), "")
-    rs = src(r.value) if r is not None else ""
-    ok = "reference.xyz[frame, ref_atom_indices, :]" in rs and "copy=True" in rs
-    ctx.decide(ok, "C06-R2", r or fn, TRAJ, "Trajectory.superpose", "reference = copy of reference.xyz[frame, ref_atom_indices, :]", "", "reference coordinates are %s" % rs[:100])
-    i_off, o = find(assign_to("offset"), "")
-    osrc = re.sub(r"\s", "", src(o.value)) if o is not None else ""
-    ok = osrc.startswith("np.mean(self_align_xyz,axis=1,dtype=np.float64)")
-    ctx.decide(ok, "C06-R2", o or fn, TRAJ, "Trajectory.superpose", "offset = float64 mean over the alignment atoms", "", "offset is %s" % osrc[:100])
-    i_s1, s1 = find(aug("self_align_xyz", ast.Sub, "offset"), "")
-    i_s2, s2 = find(aug("self_displace_xyz", ast.Sub, "offset"), "")
-    ctx.decide(s1 is not None and s2 is not None, "C06-R2", s1 or fn, TRAJ, "Trajectory.superpose", "the same offset is subtracted from alignment and displaced coordinates", "",
-               "alignment and displaced coordinates are not shifted by the same offset (align: %s, displace: %s): the rotation is applied about the wrong centre" % (s1 is not None, s2 is not None))
-    if s2 is not None:
-        # the displaced subtraction may only be skipped when both arrays alias
-        guard = body[i_s2] if isinstance(body[i_s2], ast.If) else None
-        ok = guard is None or re.sub(r"\s", "", src(guard.test)) in ("self_align_xyz.ctypes.data!=self_displace_xyz.ctypes.data",)
-        ctx.decide(ok, "C06-R2", guard or s2, TRAJ, "Trajectory.superpose", "displaced centring skipped only when both arrays share memory", "", "displaced centring is conditional on `%s`" % (src(guard.test) if guard else None))
-    ok = None not in (i_ref, i_s1) and i_ref < i_s1 and (i_s2 is None or i_ref < i_s2)
-    ctx.decide(ok, "C06-R2", r or fn, TRAJ, "Trajectory.superpose", "the reference frame is copied before the mobile coordinates are centred in place", "",
-               "the reference is copied after `self_align_xyz -= offset`: self_align_xyz / self_displace_xyz are views of self.xyz, so when the reference is the trajectory itself "
-               "(t.superpose(t, frame)) the frame is read after it has been moved to the origin and every frame is superposed onto the wrong position")
-    i_ro, ro = find(assign_to("ref_offset"), "")
-    rosrc = re.sub(r"\s", "", src(ro.value)).replace('"', "'") if ro is not None else ""
-    ok = rosrc == "ref_align_xyz[0].astype('float64').mean(0)"
-    ctx.decide(ok, "C06-R2", ro or fn, TRAJ, "Trajectory.superpose", "ref_offset = float64 mean of the reference atoms", "", "ref_offset is %s" % rosrc)
-    i_rs, rsub = find(aug("ref_align_xyz[0]", ast.Sub, "ref_offset"), "")
-    ctx.decide(rsub is not None, "C06-R2", rsub or fn, TRAJ, "Trajectory.superpose", "reference centred", "", "the reference is not centred before the traces are taken")
-    i_sg, sg = find(assign_to("self_g"), "")
-    i_rg, rg = find(assign_to("ref_g"), "")
-    ok = sg is not None and rg is not None and re.sub(r"\s", "", src(sg.value)).replace('"', "'") == "np.einsum('ijk,ijk->i',self_align_xyz,self_align_xyz)" and \
-        re.sub(r"\s", "", src(rg.value)).replace('"', "'") == "np.einsum('ijk,ijk->i',ref_align_xyz,ref_align_xyz)"
-    ctx.decide(ok, "C06-R2", sg or fn, TRAJ, "Trajectory.superpose", "traces = sum of squares of the alignment coordinates", "", "traces are %s / %s" % (src(sg.value) if sg else None, src(rg.value) if rg else None))
-    ok = None not in (i_s1, i_sg, i_rs, i_rg) and i_s1 < i_sg and i_rs < i_rg
-    ctx.decide(ok, "C06-R2", sg or fn, TRAJ, "Trajectory.superpose", "traces are taken after centring", "", "a trace is computed before its coordinates are centred: G no longer matches the coordinates handed to the kernel")
-    i_call, call = find(lambda n: isinstance(n, ast.Call) and call_name(n) == "_rmsd.superpose_atom_major", "")
-    want = ["ref_align_xyz", "self_align_xyz", "ref_g", "self_g", "self_displace_xyz", "0"]
-    got = [src(x) for x in call.args] if call is not None else None
-    sig = params(ctx.py.func(PYX, "superpose_atom_major"))
-    ok = got == want and sig[:6] == ["xyz_align_target", "xyz_align_mobile", "g_target", "g_mobile", "xyz_displace_mobile", "target_frame"] and \
-        (kwarg(call, "parallel") is not None and src(kwarg(call, "parallel")) == "parallel")
-    ctx.decide(ok, "C06-R2", call or fn, TRAJ, "Trajectory.superpose", "superpose_atom_major(ref_align, self_align, ref_g, self_g, self_displace, 0, parallel=parallel)", "",
-               "arguments %s do not match the roles %s of the kernel wrapper" % (got, sig[:6]))
-    i_add, add = find(aug("self_displace_xyz", ast.Add, "ref_offset"), "")
-    i_set, st = find(lambda n: isinstance(n, ast.Assign) and dotted(n.targets[0]) == "self.xyz" and src(n.value) == "self_displace_xyz", "")
-    ok = None not in (i_call, i_add, i_set) and i_call < i_add < i_set and i_s2 is not None and i_s2 < i_call
-    ctx.decide(ok, "C06-R2", add or fn, TRAJ, "Trajectory.superpose", "centre -> rotate -> add the reference offset -> self.xyz = result", "",
-               "the order centre / rotate / shift to the reference / store is broken (indices %s)" % [i_s2, i_call, i_add, i_set])
+    def at(t, f, a_, k):
+        return t.data[(f * t.shape[1] + a_) * 3 + k]
+    for atom_indices in (None, [1, 3]):
+        for ref_is_self in (False, True):
+            cfg_ = "atoms %s, reference %s" % ("all" if atom_indices is None else atom_indices, "= the trajectory itself" if ref_is_self else "another trajectory")
+            try:
+                ts, me, rec, x0, r0 = run(atom_indices, ref_is_self, "PAR")
+            except PUnsupported as e:
+                ctx.undecided("C06-R2", fn, TRAJ, q, cfg_, "superpose not evaluable: %s" % e)
+                continue
+            if rec.get("n_calls") != 1:
+                ctx.violated("C06-R2", fn, TRAJ, q, cfg_ + ": one kernel call", "_rmsd.superpose_atom_major is called %s times" % rec.get("n_calls", 0))
+                continue
+            idx = list(range(N_)) if atom_indices is None else atom_indices
+            n = len(idx)
+            inv = Rat(Poly.const(1)) / n
+            mean = [[sum((at(x0, f, a_, k) for a_ in idx), Rat(Poly.const(0))) * inv for k in range(3)] for f in range(F_)]
+            rmean = [sum((at(r0, frame, a_, k) for a_ in idx), Rat(Poly.const(0))) * inv for k in range(3)]
+            want = {
+                "mobile": Ten((F_, n, 3), [at(x0, f, a_, k) - mean[f][k] for f in range(F_) for a_ in idx for k in range(3)]),
+                "target": Ten((1, n, 3), [at(r0, frame, a_, k) - rmean[k] for a_ in idx for k in range(3)]),
+                "displace": Ten((F_, N_, 3), [at(x0, f, a_, k) - mean[f][k] for f in range(F_) for a_ in range(N_) for k in range(3)]),
+            }
+            want["g_mobile"] = Ten((F_,), [sum((e * e for e in want["mobile"].data[f * n * 3:(f + 1) * n * 3]), Rat(Poly.const(0))) for f in range(F_)])
+            want["g_target"] = Ten((1,), [sum((e * e for e in want["target"].data), Rat(Poly.const(0)))])
+            text = {"mobile": "alignment coordinates = the selected atoms of self.xyz minus their per-frame mean",
+                    "target": "reference = the selected atoms of frame `frame` of the reference, as they were before anything was moved, minus their mean",
+                    "displace": "displaced coordinates = all atoms of self.xyz minus the per-frame mean of the alignment atoms",
+                    "g_mobile": "trace of the mobile frames = sum of squares of the centred alignment coordinates",
+                    "g_target": "trace of the reference = sum of squares of the centred reference"}
+            for role in ("mobile", "target", "displace", "g_mobile", "g_target"):
+                got = rec["at_call"].get(role)
+                ok = isinstance(got, Ten) and got.shape == want[role].shape and ts.equal(got, want[role])
+                why = ""
+                if not ok:
+                    why = "kernel argument `%s` is %s" % (sig[roles[role]], ("of shape %s, expected %s" % (got.shape, want[role].shape)) if isinstance(got, Ten) and got.shape != want[role].shape
+                                                         else ("not an array" if not isinstance(got, Ten) else ts.first_difference(got, want[role])))
+                    if role == "target" and ref_is_self:
+                        why += " - with reference = self the frame must be copied before the mobile coordinates are centred in place (they are views of self.xyz)"
+                ctx.decide(ok, "C06-R2", fn, TRAJ, q, "%s: %s" % (cfg_, text[role]), "", why)
+            fr = rec["at_call"].get("frame")
+            frc = fr.const_value() if hasattr(fr, "const_value") else fr
+            ctx.decide(frc == 0, "C06-R2", fn, TRAJ, q, "%s: target_frame = 0 (the reference handed over has one frame)" % cfg_, "", "target_frame is %r" % (fr,))
+            ctx.decide(rec.get("parallel") == "PAR", "C06-R2", fn, TRAJ, q, "%s: the `parallel` argument is passed on" % cfg_, "", "the kernel receives parallel=%r" % (rec.get("parallel"),))
+            final = me._xyz
+            wf = []
+            for f in range(F_):
+                R = [[Rat(Poly.var("R%d_%d%d" % (f, i_, j_))) for j_ in range(3)] for i_ in range(3)]
+                for a_ in range(N_):
+                    v = [at(x0, f, a_, k) - mean[f][k] for k in range(3)]
+                    for i_ in range(3):
+                        wf.append(R[i_][0] * v[0] + R[i_][1] * v[1] + R[i_][2] * v[2] + rmean[i_])
+            wf = Ten((F_, N_, 3), wf)
+            ok = isinstance(final, Ten) and final.shape == wf.shape and ts.equal(final, wf)
+            ctx.decide(me._rmsd_traces is None, "C06-R2", fn, TRAJ, q, "%s: the cached traces of the old coordinates are dropped" % cfg_, "",
+                       "self._rmsd_traces still holds the traces of the coordinates before the superposition (the result is stored without going through the xyz setter): "
+                       "a later rmsd(..., precentered=True) uses them with the moved coordinates")
+            final = me._xyz
+            ctx.decide(ok, "C06-R2", fn, TRAJ, q, "%s: self.xyz = R_f (x - centroid_f) + centroid of the reference" % cfg_, "",
+                       "self.xyz afterwards: %s" % (ts.first_difference(final, wf) if isinstance(final, Ten) and final.shape == wf.shape else "not an array of the original shape"))
+    # every mean taken in superpose accumulates in float64 (float32 sums over thousands of atoms lose the centroid)
+    n_means = 0
+    for c in walk_no_nested(fn):
+        if isinstance(c, ast.Call) and ((call_name(c) or "").split(".")[-1] == "mean" or (isinstance(c.func, ast.Attribute) and c.func.attr == "mean")):
+            n_means += 1
+            dt = kwarg(c, "dtype")
+            f64 = lambda e: e is not None and (src(e).replace('"', "'") in ("np.float64", "'float64'", "float", "np.double", "numpy.float64"))   # noqa: E731
+            recv = c.func.value if isinstance(c.func, ast.Attribute) else None
+            via_cast = isinstance(recv, ast.Call) and isinstance(recv.func, ast.Attribute) and recv.func.attr == "astype" and recv.args and f64(recv.args[0])
+            ctx.decide(f64(dt) or via_cast, "C06-R2", c, TRAJ, q, "mean `%s` accumulates in float64" % src(c)[:50], "",
+                       "the centroid `%s` is accumulated in the array's own float32 precision" % src(c)[:70])
+    if n_means < 2:
+        ctx.undecided("C06-R2", fn, TRAJ, q, "float64 means", "only %d mean() calls found in superpose" % n_means)
 
 
 # ---------------------------------------------------------------------------------------------------
